@@ -53,7 +53,32 @@ class TrackedLock:
     def release(self) -> None:
         self.holders.pop(self.me, None)
         self.log.append(("rel", self.me, self.clock()))
-        self.inner.release()
+        self.own_release = True
+        try:
+            self.inner.release()
+        finally:
+            self.own_release = False
+
+    def watch_forced_release(self) -> None:
+        """The stale-lock takeover inside acquire() calls self.release() on the lock *object*: log it together
+        with the live holders at that instant (a non-empty set = the takeover broke a live lock)."""
+        orig = self.inner.release
+        self.own_release = False
+
+        def release() -> None:
+            self.forcing = not self.own_release
+            try:
+                orig()
+            finally:
+                self.forcing = False
+
+        self.forcing = False
+        self.inner.release = release
+
+    def renamed(self) -> None:
+        """called (by the os proxy) right after a successful rename of the lock file by this thread"""
+        if self.forcing:
+            self.log.append(("force", self.me, self.clock(), sorted(self.holders)))
 
 
 def gen_progs(r: random.Random, nth: int, max_calls: int = 4) -> list[list[dict[str, Any]]]:
@@ -95,7 +120,23 @@ def run_file_case(lock_kind: str, progs: list[list[dict[str, Any]]], seed: int, 
             lk = (JournalFileSymlinkLock if lock_kind == "symlink" else JournalFileOpenLock)(path, grace_period=grace)
             b = JournalFileBackend(path, lock_obj=lk)
             b._lock = TrackedLock(lk, t, holders, locklog, lambda: s.clock)
+            b._lock.watch_forced_release()
             backends.append(b)
+        owner: dict[str, Any] = {"t": None}  # who created the lock file that exists now (tracked at the system call)
+
+        def lock_created(t: Any) -> None:
+            owner["t"] = t
+
+        def renamed(t: Any) -> None:
+            if t is None or t >= len(backends):
+                return
+            lk = backends[t]._lock
+            if lk.forcing and owner["t"] not in (None, t, plan.crashed):
+                locklog.append(("force", t, s.clock, [owner["t"]]))
+            owner["t"] = None
+
+        sys_.hooks["lock_created"] = lock_created
+        sys_.hooks["renamed"] = renamed
 
         def body(t: int) -> Any:
             def f() -> None:
@@ -161,7 +202,7 @@ def judge(out: dict[str, Any], n_threads: int) -> list[dict[str, Any]]:
                     probs.append({"kind": "lost-append", "why": "acknowledged append %s of thread %d is not in the final log %s" % (ks, c["t"], fkeys)})
                 elif pos != list(range(pos[0], pos[0] + len(pos))):
                     probs.append({"kind": "interleaved-append", "why": "records %s of one append are not contiguous in the final log %s" % (ks, fkeys)})
-            elif "exc" in c:
+            elif "exc" in c and c["t"] != crashed:
                 probs.append({"kind": "append-raises", "why": "append by thread %d raised %s" % (c["t"], c["exc"])})
             else:
                 # interrupted by the crash: all or nothing
@@ -169,7 +210,7 @@ def judge(out: dict[str, Any], n_threads: int) -> list[dict[str, Any]]:
                 if any(present) and not all(present):
                     probs.append({"kind": "partial-append", "why": "interrupted append %s is partly in the final log %s" % (ks, fkeys)})
         else:
-            if "exc" in c:
+            if "exc" in c and c["t"] != crashed:
                 probs.append({"kind": "read-raises", "why": "read_logs(%d) by thread %d raised %s" % (c["from"], c["t"], c["exc"])})
             elif c.get("ok"):
                 res = [key(x) for x in c["res"]]
@@ -181,9 +222,18 @@ def judge(out: dict[str, Any], n_threads: int) -> list[dict[str, Any]]:
                     need = 0
                     for a in out["calls"]:
                         if a["a"] == "append" and a.get("ok") and a["ret"] < c["inv"]:
-                            need = max(need, max(fkeys.index(key(x)) for x in a["recs"]) + 1)
+                            idxs = [fkeys.index(key(x)) for x in a["recs"] if key(x) in fkeys]
+                            if idxs:
+                                need = max(need, max(idxs) + 1)
                     if k + len(res) < min(need, len(fkeys)) and k <= need:
                         probs.append({"kind": "read-misses-acked", "why": "read_logs(%d) returned %d records but %d records were acknowledged before it began" % (k, len(res), need)})
+    # a stale-lock takeover that removed the lock of a *live* holder (root cause of everything that follows)
+    for ev in out["locklog"]:
+        if ev[0] == "force":
+            live = [h for h in ev[3] if h != crashed and h != ev[1]]
+            if live:
+                probs.insert(0, {"kind": "takeover-race", "why": "thread %d forcibly released the lock file at %d while live thread(s) %s held it" % (ev[1], ev[2], live)})
+                break
     # mutual exclusion (dead holders do not count)
     for ev in out["locklog"]:
         if ev[0] == "acq":
